@@ -266,7 +266,19 @@ def bash_reader(script):
                               direct_calls=direct)
     if res['timed_out'] or res['source_rc'] != 0:
         raise readers.ReaderError('bash could not load the script: %s' % res['stderr'][:300])
-    return readers.read_bash_dump(script, res['dumps'])
+    R = readers.read_bash_dump(script, res['dumps'])
+    # tables the shared matcher reads must be locals of every wrapper (or its shape function): in bash a
+    # missing local silently resolves to the caller's table of the same name (dynamic scoping)
+    m = re.search(r'^_cmd_subword \(\) \{\n(.*?)\n\}\n', script, re.S | re.M)
+    needed = ['literals', 'literal_transitions', 'max_fallback_level']
+    if m:
+        body = m.group(1)
+        for name in ('command_transitions', 'star_transitions'):
+            if name + '[' in body:
+                needed.append(name)
+    R['missing_locals'] = {k: [n for n in needed if n not in names] for k, names in R.get('declared', {}).items()}
+    R['missing_locals'] = {k: v for k, v in R['missing_locals'].items() if v}
+    return R
 
 
 READERS = {'fish': readers.read_fish, 'zsh': readers.read_zsh, 'pwsh': readers.read_pwsh}
@@ -304,6 +316,8 @@ def check_one(P, stmts, shell, acc, origin, run_bash=True):
         acc.inconclusive.append('reader (%s): %s' % (shell, e))
         return
     probs = compare_script(ans['dfa_min'], R, shell)
+    if shell == 'bash' and R.get('missing_locals'):
+        probs.insert(0, 'within-word functions do not declare tables the shared matcher reads: %s' % R['missing_locals'])
     ntr = len(ans['dfa_min']['main']['tr'])
     if ans['dfa_min']['subs'] or ntr >= 6:
         acc.seen((text, shell))
